@@ -1,6 +1,7 @@
 """C12 - DOT export declares exactly the admitted nodes and only edges between them."""
 import collections
 import decimal
+import math
 import os
 import pathlib
 import tempfile
@@ -117,6 +118,10 @@ def make_funcs(case, tree, index_of):
     return funcs
 
 
+def fractional(maxlevel):
+    return isinstance(maxlevel, float) and maxlevel != int(maxlevel)
+
+
 def expected_structure(tree, start, stop_ids, hide_ids, maxlevel):
     admitted = refs.admitted_ids(start, stop_ids, maxlevel)
     declared = refs.restricted(refs.preorder(start), admitted, hide_ids)
@@ -205,7 +210,23 @@ def check_exporter(case, kind, tree, labels, acc):
             exporter = RenderTreeGraph(start, *args, **kwargs)
     ctx = "%s start=%s stop=%s hide=%s maxlevel=%r shape=%s names=%r" % (kind, case["start"], case["stop"], case["hide"], maxlevel, case["shape"], case["names"])
 
+    level = [maxlevel]
+
     def verify(lines, known_ident, phase):
+        """A maxlevel that is not a whole number has no prescribed reading (the statement says 'depth below maxlevel', the
+        iterators count levels from 1 and stop above it): node and edge statements must be right for ONE of the two."""
+        if not fractional(maxlevel):
+            return verify_at(lines, known_ident, phase)
+        first = None
+        for reading in (math.floor(maxlevel), math.ceil(maxlevel)):
+            level[0] = reading
+            try:
+                return verify_at(lines, known_ident, phase)
+            except Violation as exc:
+                first = first or exc
+        raise Violation(first.clause, "maxlevel=%r read as %d and as %d: %s" % (maxlevel, math.floor(maxlevel), math.ceil(maxlevel), first.detail))
+
+    def verify_at(lines, known_ident, phase):
         """Complete oracle for one iteration of the exporter against the CURRENT tree and admission sets."""
         indent = " " * case.get("indent", 4)
         header = "%s %s {" % (case.get("graph", "digraph"), case.get("name", "tree"))
@@ -219,7 +240,7 @@ def check_exporter(case, kind, tree, labels, acc):
         if body[: len(options)] != want_opts:
             raise Violation("options", "%s: option lines %r expected %r" % (ctx, body[: len(options)], want_opts))
         body = body[len(options):]
-        declared, edges, kf = expected_structure(tree, start, stop_ids, hide_ids, maxlevel)
+        declared, edges, kf = expected_structure(tree, start, stop_ids, hide_ids, level[0])
         if len(body) < len(declared):
             raise Violation("node-statements", "%s: %d statements for %d declared nodes: %r" % (ctx, len(body), len(declared), body))
         # node statements in pre-order
@@ -522,6 +543,7 @@ def check_case(case, acc):
     acc.nontrivial(bool(first[2]) and (r_stop + r_level + r_filter >= 2))
     acc.tag("cases_with_edges", bool(first[2]))
     acc.tag("maxlevel_0", case["maxlevel"] == 0)
+    acc.tag("maxlevel_not_a_whole_number", fractional(case["maxlevel"]))
     acc.tag("custom_functions", bool(case.get("funcs")))
 
 
@@ -551,6 +573,23 @@ def _enum_cases(max_nodes, index, count):
                 for hide in shapes.subsets(sub):
                     for maxlevel in [None] + list(range(0, height + 3)):
                         yield {"shape": forest.to_list(shape), "names": names, "start": start, "stop": stop, "hide": hide, "maxlevel": maxlevel, "truth": k, "positional": k % 4 == 0, "cls": ("Node", "EqNode", "Node", "FalsyNode", "LenNode")[k % 5]}
+
+
+def _fraction_cases(max_nodes):
+    """maxlevel = 0.5, 1.5, 2.5 ...: on every small shape and start node, alone and with one hidden node (no stop: KF-C12-1)."""
+    from .c06 import _subtree_labels
+
+    k = 0
+    for shape in shapes.trees_upto(max_nodes):
+        size = shapes.shape_size(shape)
+        for start in range(size):
+            sub = _subtree_labels(shape, start)
+            if len(sub) < 2:
+                continue
+            for half in range(0, 4):
+                for hide in [[]] + [[x] for x in sub]:
+                    k += 1
+                    yield {"shape": forest.to_list(shape), "names": special_names(size, k), "start": start, "stop": [], "hide": hide, "maxlevel": half + 0.5, "truth": k, "positional": k % 4 == 0, "cls": "Node"}
 
 
 NAME = st.text(alphabet=NAME_ALPHABET, min_size=0, max_size=4)
@@ -622,7 +661,7 @@ def plan(tier, seed):
     examples = 150 if tier == "quick" else 1200
     tasks = [{"engine": "enum", "max_nodes": max_nodes, "index": i, "count": nshards * 2} for i in range(nshards * 2)]
     tasks += [{"engine": "hyp", "examples": examples, "seed": seed * 1000 + i} for i in range(nshards)]
-    tasks += [{"engine": "gc"}, {"engine": "locale", "which": ["dot", "uniquedot"]}]
+    tasks += [{"engine": "gc"}, {"engine": "locale", "which": ["dot", "uniquedot"]}, {"engine": "fraction", "max_nodes": 4 if tier == "quick" else 5}]
     tasks += [{"engine": "wide", "widths": [w]} for w in ((300, 700, 4400) if tier == "quick" else (257, 300, 700, 1100, 2500, 4400, 9000))]
     return tasks
 
@@ -650,7 +689,9 @@ def run_task(task, acc):
                 acc.add_violation(case, exc)
                 break
         return
-    if task["engine"] == "enum":
+    if task["engine"] == "fraction":
+        acc.run_enum(check_case, _fraction_cases(task["max_nodes"]))
+    elif task["engine"] == "enum":
         acc.run_enum(check_case, _enum_cases(task["max_nodes"], task["index"], task["count"]))
     else:
         acc.run_hypothesis(check_case, random_cases(), task["examples"], task["seed"])
